@@ -16,7 +16,8 @@ def run(chk):
     total = {"n": 0, "newarg": 0, "judged": 0}
     for fam in ("core", "tree"):
         raw, defs = os.path.join(w, "defs_%s.ndjson" % fam), os.path.join(w, "ok_%s.ndjson" % fam)
-        F.write(F.FAMILIES[fam](), raw)
+        # the engine documents multicall as unsupported ("TODO: Multicall support"): such definitions have no reference level
+        F.write([x for x in F.FAMILIES[fam]() if not x["cmd"]["s"]["multicall"]], raw)
         json.loads(d.vh(["gate", "--defs", raw, "--out", defs]).strip().splitlines()[-1])
         os.environ["DEFS"] = defs
         rp = os.path.join(w, "replay_%s.ndjson" % fam)
@@ -47,7 +48,8 @@ def run(chk):
                 "(sound: extends the word, belongs to the level, accepted by the parser; complete: every visible option/subcommand "
                 "extending the word represented; hidden only if nothing visible). distinct_nontrivial = positions where a new argument may start.")
     chk.exhaustive = True
-    chk.assumptions = ["value and path candidates are not constrained by the property and are ignored", "custom completers are outside the vocabulary"]
+    chk.assumptions = ["value and path candidates are not constrained by the property and are ignored", "custom completers are outside the vocabulary",
+                       "multicall definitions are excluded: the engine documents them as unsupported"]
 
 
 def replay(chk, path):
